@@ -7,7 +7,7 @@ import os
 import shutil
 import tempfile
 
-from .common import Check, Err, clist, cz, cnat
+from .common import Check, Err, clist, cz, cnat, czlist
 from .procs import Child, GatedModule
 
 GATE_PC = {"rename": 1, "open_x": 2, "obj_get1": 3, "obj_get2": 4, "undo_lockfile": 5, "remove_old_pin": 6, "attach": 7, "obj_pin": 8,
@@ -196,7 +196,7 @@ def child_setup_factory(root, me):
 class C23(Check):
     pid = "C23"
     props_file = "Props/C23.v"
-    corr_imports = ["Sys.StartStop", "Sys.FmmuLock", "Corr.C23"]
+    corr_imports = ["Sys.StartStop", "Sys.FmmuLock", "Sys.FmmuBytes", "Corr.C23"]
     technique = ("Coq: finite closed-set proof over ALL interleavings of two participants (at most one installs, distinct ethertypes), exhaustive exploration for "
                  "three, invariant proof over all alloc/release histories for the address windows, machine-checked witnesses for the recorded race + the REAL "
                  "ParallelEtherCat.run() / FMMULock in forked processes gated at every operation on a shared object and interleaved by schedules, against the model")
@@ -220,6 +220,19 @@ class C23(Check):
             a, b = byte * 8 + bits[0], byte * 8 + bits[1]
             other = rng.choice([x for x in (3, 77, 200, 509) if x // 8 != byte])
             return {"kind": "fmmu_rel", "a": a, "b": b, "other": other, "dir": rng.choice(["remove_first", "alloc_first"])}
+        if rng.random() < 0.2:
+            # the bytes of the map file themselves: any initial content, allocations (scripted draws, some of them taken) and removals
+            init = bytes(rng.choice([0, 0, 0xff, 0xfe, 0x7f, rng.randrange(256)]) for _ in range(64))
+            ops, live, nextp = [], [], 0
+            for _ in range(rng.randint(2, 9)):
+                if live and rng.random() < 0.45:
+                    ops.append(["R", live.pop(rng.randrange(len(live)))])
+                else:
+                    byte = rng.randrange(64)
+                    ops.append(["A", nextp, [rng.choice([byte * 8 + rng.randrange(8), rng.randrange(1, 512)]) for _ in range(rng.randint(1, 5))]])
+                    live.append(nextp)
+                    nextp += 1
+            return {"kind": "fmmu_bytes", "init": init.hex(), "ops": ops}
         if rng.random() < 0.2:
             k = rng.randint(2, 4)
             return {"kind": "fmmu", "draws": [[rng.choice([1, 7, 7, 300, 511]) for _ in range(3)] + [rng.randint(2, 510)] for _ in range(k)],
@@ -380,6 +393,53 @@ class C23(Check):
                 k.close()
             shutil.rmtree(root, ignore_errors=True)
 
+    def run_fmmu_bytes(self, case):
+        """one process, FMMULock objects on a map file with the given initial content; the draws of randrange are scripted (0 is
+        never drawn: randrange(1, 512)) and continued with the first free number when the script runs out"""
+        import ebpfcat.lock as lock
+        root = tempfile.mkdtemp(prefix="verif_c23_")
+        fn = root + "/run/fmmu"
+        os.makedirs(root + "/run")
+        with open(fn, "wb") as f:
+            f.write(bytes.fromhex(case["init"]))
+        saved = lock.randrange
+        objs, windows, used_draws, contents = {}, [], [], []
+        try:
+            for op in case["ops"]:
+                if op[0] == "A":
+                    cur = open(fn, "rb").read()
+                    free = next((a for a in range(1, 512) if not cur[a // 8] & (1 << (a % 8))), None)
+                    draws = [d for d in op[2] if 1 <= d < 512] + ([free] if free is not None else [])
+                    it = iter(draws)
+                    taken = []
+
+                    def scripted(a, b=None):
+                        d = next(it)
+                        taken.append(d)
+                        return d
+                    lock.randrange = scripted
+                    try:
+                        objs[op[1]] = lock.FMMULock(fn)
+                        windows.append(objs[op[1]].base_addr >> 22)
+                    except StopIteration:
+                        windows.append(-1)          # the map is full: the library would draw for ever
+                    used_draws.append(draws)
+                else:
+                    if op[1] in objs:
+                        objs.pop(op[1]).remove()
+                contents.append(open(fn, "rb").read().hex())
+            return {"final": open(fn, "rb").read().hex(), "windows": windows, "draws": used_draws, "contents": contents}
+        except Exception as e:      # noqa
+            return Err(5, f"{type(e).__name__}: {e}")
+        finally:
+            lock.randrange = saved
+            for o in objs.values():
+                try:
+                    os.close(o.fd)
+                except OSError:
+                    pass
+            shutil.rmtree(root, ignore_errors=True)
+
     def run_fmmu_rel(self, case):
         """A holds window a.  remove_first: A is stopped inside remove() between reading and writing its map byte, B allocates b
         (same byte) - it has to wait; A finishes; C asks for b.  alloc_first: B is stopped inside its allocation between reading and
@@ -456,6 +516,10 @@ class C23(Check):
             o = self.run_restart(case)
             case["_o"] = o
             return o
+        if case["kind"] == "fmmu_bytes":
+            o = self.run_fmmu_bytes(case)
+            case["_o"] = o
+            return o
         if case["kind"] == "fmmu_rel":
             o = self.run_fmmu_rel(case)
             case["_o"] = o
@@ -475,6 +539,10 @@ class C23(Check):
             ops = [f"OAlloc 0 {clist([cz(case['w']), cz(500)])}", "ORelease 0", f"OAlloc 0 {clist([cz(case['again']), cz(case['w2'] + 1), cz(500)])}",
                    f"OAlloc 1 {clist([cz(a2), cz(case['w2']), cz(501)])}"]
             return f"(run_fmmu_ops {clist(ops)})"
+        if case["kind"] == "fmmu_bytes":
+            it = iter(o["draws"])
+            ops = [f"OAlloc {cz(op[1])} {clist([cz(d) for d in next(it)])}" if op[0] == "A" else f"ORelease {cz(op[1])}" for op in case["ops"]]
+            return f"(run_fmmu_bytes {czlist(bytes.fromhex(case['init']))} {clist(ops)})"
         if case["kind"] == "fmmu_rel":
             ops = [f"OAlloc {cz(int(x[1]))} {clist([cz(d) for d in o['draws'][int(x[1])] + [500]])}" if x[0] == "A" else f"ORelease {cz(int(x[1]))}" for x in o["ops"]]
             return f"(run_fmmu_ops {clist(ops)})"
@@ -486,6 +554,8 @@ class C23(Check):
     def model_value(self, case, o):
         if case["kind"] == "restart":
             return [x["fmmu"] if isinstance(x, dict) else -9 for x in (o["a1"], o["a2"], o["b"])]
+        if case["kind"] == "fmmu_bytes":
+            return [list(bytes.fromhex(o["final"])), o["windows"]]
         if case["kind"] == "fmmu_rel":
             return o["windows"]
         if case["kind"] == "fmmu":
@@ -503,6 +573,29 @@ class C23(Check):
                         f"started while A is running, was given the same window")
             if o["a2"]["eth"] == o["b"]["eth"]:
                 return f"both running participants use ethertype {o['a2']['eth']:#x}"
+            return True
+        if case["kind"] == "fmmu_bytes":
+            if isinstance(o, Err):
+                return o.what
+            # independent of the model: after every operation the map is the initial one plus the numbers of the live holders
+            bits = lambda b: {a for a in range(512) if b[a // 8] & (1 << (a % 8))}      # noqa
+            init = bits(bytes.fromhex(case["init"]))
+            live, k = {}, 0
+            for op, content in zip(case["ops"], o["contents"]):
+                if op[0] == "A":
+                    w = o["windows"][k]
+                    k += 1
+                    if w != -1:
+                        if w in init or w in live.values() or not 1 <= w < 512:
+                            return f"allocation handed out window number {w}, which is taken (initially: {w in init}, by a live holder: {w in live.values()}) or out of range"
+                        live[op[1]] = w
+                else:
+                    live.pop(op[1], None)
+                now = bits(bytes.fromhex(content))
+                want = init | set(live.values())
+                if now != want or len(bytes.fromhex(content)) != 64:
+                    return (f"after {op[:2]} the map file marks {sorted(now - want)} in addition and lacks {sorted(want - now)} "
+                            f"(initial content plus the numbers of the live holders {sorted(live.values())})")
             return True
         if case["kind"] == "fmmu_rel":
             w = o["windows"]
@@ -561,7 +654,7 @@ class C23(Check):
                 "corpus: the leaver / fresh starter race")
 
     def distribution(self, cases, observed):
-        d = {"startstop": 0, "fmmu": 0, "fmmu_rel": 0, "restart": 0, "steps": 0, "joiners": 0, "lock_waits": 0}
+        d = {"startstop": 0, "fmmu": 0, "fmmu_rel": 0, "fmmu_bytes": 0, "restart": 0, "steps": 0, "joiners": 0, "lock_waits": 0}
         for c, o in zip(cases, observed):
             d[c["kind"]] += 1
             if c["kind"] == "fmmu_rel" and not isinstance(o, Err):
